@@ -284,7 +284,75 @@ def run(ctx):
     for k in sorted(set(amb) - used):
         ctx.ob("R12.5", "stale:" + k, False, "table row no longer matches", "tables/c12_ambient.tsv")
     _parallel_bodies(ctx, F)
+    _named_ids(ctx, F)
     _controls(ctx, F)
+
+
+def _always_some(F, f, op, depth=0, seen=None):
+    """True when operand `op` of `f` is `Option::Some(..)` on every path: every definition of the local is a `Some`
+    aggregate, a move / copy of such a local, or the result of a workspace function all of whose returned values are."""
+    seen = seen if seen is not None else set()
+    l = op_local(op)
+    if l is None or (f.path, l) in seen:
+        return False
+    seen.add((f.path, l))
+    ds = f.defs().get(l, [])
+    if not ds:
+        return False
+    for d in ds:
+        if d[0] == "stmt":
+            rv = d[3]
+            if rv[0] == "agg" and rv[1] == "adt" and rv[2] == "core::option::Option":
+                if rv[4] != "Some":
+                    return False
+            elif rv[0] == "use":
+                if not _always_some(F, f, rv[1], depth, seen):
+                    return False
+            else:
+                return False
+        elif d[0] == "call":
+            g = F.fns.get(d[2].path)
+            if g is None or not g.body or depth >= 2:
+                return False
+            if not _always_some(F, g, ["m", 0], depth + 1, seen):
+                return False
+        else:
+            return False
+    return True
+
+
+def _named_ids(ctx, F):
+    """R12.7: an id that the debug-name replacer hands out carries a name on every path.  `Display` of a Sierra id prints
+    the debug name when there is one and the *number* otherwise; the number is the salsa intern id, assigned in
+    first-come order, so a nameless id in debug-name output makes the text depend on the query history (seed C12-6: names
+    longer than a cap were dropped).  Decided on the id aggregates (`.. { id, debug_name }`) built in the impl of the
+    Sierra generator that keep the number of an id they were given (`id: id.id` - the canonical replacer numbers its ids
+    afresh and is not concerned): the `debug_name` operand is `Some(..)` on every path
+    (through moves and through workspace helpers all of whose returns are `Some`)."""
+    n = 0
+    for p in sorted(F.fns):
+        f = F.fns[p]
+        if not f.body or f.d.get("derived") or "cairo_lang_sierra_generator::" not in p:
+            continue
+        for i, j, st in f.stmts():
+            if st[0] != "a" or st[2][0] != "agg" or st[2][1] != "adt" or not st[2][2].startswith("cairo_lang_sierra::ids::"):
+                continue
+            fields = st[2][5] or []
+            if "debug_name" not in fields:
+                continue
+            # the ids in question keep the number of an id the routine was given (`id: id.id`): the intern number
+            prov = op_prov(f, st[2][3][fields.index("id")], 12) if "id" in fields else set()
+            if "f:id" not in prov or not any(x.startswith("arg:") for x in prov):
+                continue
+            n += 1
+            ctx.analysed(f)
+            op = st[2][3][fields.index("debug_name")]
+            ok = _always_some(F, f, op)
+            ctx.ob("R12.7", "named-id:%s:%s" % (fn_key(p).split("::")[-1], last_seg(st[2][2])), ok,
+                   "the id built for debug-name output carries `Some(name)` on every path" if ok else
+                   "the id built for debug-name output may carry no name: a nameless id prints as its salsa intern number, "
+                   "which depends on what was interned before (query history, schedule)", f.where(st[3] if len(st) > 3 else f.line))
+    ctx.floor("ids built by the debug-name replacer (R12.7)", n, 2)
 
 
 def _classify_id_reader(k):
